@@ -491,7 +491,9 @@ bool Exec<Cfg>::run_real(Op const& op) {
 						else if(op.var == 3) els[n] = e[static_cast<std::size_t>(n)];
 						else if(op.var == 4) *(els.end() - (cnt - n)) = e[static_cast<std::size_t>(n)];  // counted back from end(): the idiomatic end() - 1
 						else if(op.var == 5) { auto it = els.end(); it -= (cnt - n); *it = e[static_cast<std::size_t>(n)]; }
-						else { auto it = els.begin(); auto const jt = els.begin() + n; it = jt; *it = e[static_cast<std::size_t>(n)]; }  // an assigned iterator designates what its source designates
+						else if(op.var == 6) { auto it = els.begin(); auto const jt = els.begin() + n; it = jt; *it = e[static_cast<std::size_t>(n)]; }  // an assigned iterator designates what its source designates
+						else if(op.var == 7) { long const h = n / 2; (els.begin() + h)[n - h] = e[static_cast<std::size_t>(n)]; }  // a subscript counts from the iterator's own position (seeded C05-r7b-m1) ...
+						else els.end()[n - cnt] = e[static_cast<std::size_t>(n)];  // ... also a negative one
 					}
 				}
 				break;
